@@ -137,7 +137,15 @@ def _call(c):
     import cellpylib as cpl
     k = c["kind"]
     if k == "b2i":
-        return int(cpl.bits_to_int(c["bits"]))
+        form = ["list", "int64", "uint64", "float64", "bool", "uint8", "int8", "tuple"][(len(c["bits"]) + sum(1 for b in c["bits"] if b)) % 8]
+        bits = c["bits"]
+        if form == "tuple":
+            arg = tuple(bits)
+        elif form == "list" or any(b not in (0, 1) for b in bits):
+            arg = list(bits)
+        else:
+            arg = np.array(bits, dtype=form)
+        return int(cpl.bits_to_int(arg))
     if k == "i2b":
         return [int(x) for x in cpl.int_to_bits(c["num"], c["d"])]
     if k == "br":
